@@ -109,6 +109,61 @@ def gen_plain(rng, size, be, big=False, shape="mixed"):
     return root
 
 
+PROBE = b"probe"
+
+
+def probe_subtree(rng):
+    """nodes every source carries so that each elementary edit has a target of every kind: arrays of rank 1..4, a
+    multi-chunk array, a deep node, a wide parent (never link targets: appended after the links were placed)"""
+    rb = rng.randbytes
+    deep = cur = []
+    for i in range(12):
+        n = N(b"d%d" % i, b"DeepLabel%d" % i); cur.append(n); cur = n["kids"]
+    return N(PROBE, b"", kids=[
+        N(b"r1", b"", "I4", [5], rb(20)), N(b"r2", b"", "R4", [3, 4], rb(48)), N(b"r3", b"", "I8", [2, 3, 4], rb(192)),
+        N(b"r4", b"", "U4", [2, 2, 3, 2], rb(96)), N(b"mc", b"", "I4", [1500], rb(6000), grow=True),
+        N(b"deep", b"", kids=deep), N(b"wide", b"", kids=[N(b"c%03d" % i) for i in range(40)])])
+
+
+TARGETED = ["redim:r1:0", "redim:r2:0", "redim:r2:1", "redim:r3:0", "redim:r3:1", "redim:r3:2", "redim:r4:0", "redim:r4:1",
+            "redim:r4:3", "databyte:mc", "relabel:deep", "retype:r1", "retype:r2", "addchild:wide", "delchild:wide"]
+
+
+def targeted_edit(spec, kids):
+    """an elementary edit aimed at one case: every position of the dimension vector for ranks 1..4, the last byte of a
+    multi-chunk array, the label of a 13-deep node, a type change of equal size (I4 <-> R4), a child added / removed at
+    the last position of a wide parent.  Same return value as pick_edit."""
+    t = spec.split(":")
+    if node_at(kids, (PROBE,)) is None:
+        return None
+    if t[0] == "redim":
+        p = (PROBE, t[1].encode()); n = node_at(kids, p); i = int(t[2])
+        nd = list(n["dims"]); nd[i] += 1
+        sz = TY[n["dt"]]; ndata = (n["data"] + b"\0" * (nodedb.prod(nd) * sz))[:nodedb.prod(nd) * sz]
+        return "redim", p, [",".join(map(str, nd))], lambda k, p=p, nd=nd, ndata=ndata: node_at(k, p).update(dims=nd, data=ndata)
+    if t[0] == "databyte":
+        p = (PROBE, b"mc"); n = node_at(kids, p); off = len(n["data"]) - 1
+        nd = bytearray(n["data"]); nd[off] ^= 1
+        return "databyte", p, [str(off)], lambda k, p=p, nd=bytes(nd): node_at(k, p).update(data=nd)
+    if t[0] == "relabel":
+        p = (PROBE, b"deep") + tuple(b"d%d" % i for i in range(12))
+        return "relabel", p, [hx(b"Changed")], lambda k, p=p: node_at(k, p).update(label=b"Changed")
+    if t[0] == "retype":
+        p = (PROBE, t[1].encode()); n = node_at(kids, p); nt = "R4" if n["dt"] == "I4" else "I4"
+        return "retype", p, [nt], lambda k, p=p, nt=nt: node_at(k, p).update(dt=nt)
+    if t[0] == "addchild":
+        p = (PROBE, b"wide")
+        return "addchild", p, [hx(b"zzz_last")], lambda k, p=p: node_at(k, p)["kids"].append(N(b"zzz_last"))
+    if t[0] == "delchild":
+        p = (PROBE, b"wide", b"c039")
+
+        def rm(k, p=p):
+            par = node_at(k, p[:-1])["kids"]
+            par[:] = [x for x in par if x["name"] != p[-1]]
+        return "delchild", p, [], rm
+    return None
+
+
 def inside(p, roots):
     return any(p[:len(r)] == r for r in roots)
 
@@ -170,8 +225,23 @@ def gen_world(rng, be, tag, opts):
             pp, kl = rng.choice(free_parents("A"))
             add_link("A", kl, b"", b"/no/such/node")
             flags["dangling"] += 1
+        if opts.get("widelinks"):
+            # a parent with 101..130 cheap children and EXTERNAL links at the first, a middle and the last position (in creation
+            # order and in name order alike), one level down so that the per-sibling counting of recurse_nodes adds up
+            nkids = rng.randint(101, 130)
+            wide = [N(b"c%03d" % i, rand_label(rng) if i % 17 == 0 else b"") for i in range(nkids)]
+            k2 = lambda: rng.choice(keys[1:])
+            t = [k2(), k2(), k2()]
+            wide.insert(0, L(b"a_first", fn[t[0]].encode(), pstr(rng.choice(reserved[t[0]]))))
+            mid = nkids // 2 + 1
+            wide.insert(mid, L(wide[mid - 1]["name"] + b"_mid", fn[t[1]].encode(), pstr(rng.choice(reserved[t[1]]))))
+            wide.append(L(b"z_last", fn[t[2]].encode(), pstr(rng.choice(reserved[t[2]]))))
+            holder = N(b"Zone%d" % nkids, b"Zone_x", kids=[N(b"pre%d" % i) for i in range(rng.randint(0, 3))] + [N(b"Wide", b"", kids=wide)])
+            trees["A"].append(holder)
+            flags["links"] += 3; flags["ext"] += 3; flags["wide_links"] = nkids
     if opts.get("mll"):
         trees["A"].insert(0, N(b"CGNSLibraryVersion", b"CGNSLibraryVersion_t", "R4", [1], struct.pack("<f", opts["mll"])))
+    trees["A"].append(probe_subtree(rng))
     return {"fn": fn, "trees": {fn[k]: trees[k] for k in keys}, "order": [fn[k] for k in reversed(keys)], "src": fn["A"],
             "be": be, "flags": flags}
 
@@ -269,10 +339,12 @@ class Ctx:
         self.ck = ck
         self.exe = {}
         self.n_div = 0
-        self.dist = {"worlds": 0, "scenarios": {}, "links": {"ext": 0, "int": 0, "chain": 0, "nested": 0, "dangling": 0},
+        self.dist = {"worlds": 0, "scenarios": {}, "links": {"ext": 0, "int": 0, "chain": 0, "nested": 0, "dangling": 0}, "wide_link_parents": [],
                      "edits": {}, "nodes": 0, "max_depth": 0, "max_fanout": 0, "bytes": 0, "multi_chunk_arrays": 0,
                      "diff_pairs": 0, "diff_edits": 0}
         self.failures = []
+        self.tq = ck.rng.randrange(len(TARGETED)) if hasattr(ck.rng, "randrange") else 0
+        self.dist["targeted"] = {}
 
 
 def run_ops(cx, script, cwd, timeout=300):
@@ -439,6 +511,8 @@ def do_world(cx, world, idx, thorough, want_diff=True, only=None):
     cx.dist["bytes"] += st[3]; cx.dist["multi_chunk_arrays"] += st[4]
     for k in cx.dist["links"]:
         cx.dist["links"][k] += fl[k]
+    if fl.get("wide_links"):
+        cx.dist["wide_link_parents"].append(fl["wide_links"])
     cx.dist["worlds"] += 1
     sig = hashlib.sha1(json.dumps([l for f in world["order"] for l in model_file(f, be, world["trees"][f])]).encode()).hexdigest()
     ck.case(sig if (nontriv or st[3] > 4096) else None,
@@ -728,10 +802,15 @@ def do_diff(cx, world, idx, scen, outs, impl, thorough):
             cx.failures.append({"kind": "correspondence", "world": idx, "scenario": "cgnsdiff (file, copy) %s->%s" % (be, y),
                                 "first_difference": vlib.first_divergence(pred, out)})
         # (file, one elementary edit of the copy): must report
-        for _ in range(4 if thorough else 2):
-            ed = pick_edit(rng, copy_tree, dst, dict(world["trees"], **{dst: copy_tree}))
+        for e_i in range(5 if thorough else 3):
+            if e_i < (3 if thorough else 2):                  # aimed edits in rotation over the whole run, then random ones
+                spec = TARGETED[cx.tq % len(TARGETED)]; cx.tq += 1
+                ed = targeted_edit(spec, copy_tree)
+                cx.dist["targeted"][spec] = cx.dist["targeted"].get(spec, 0) + (1 if ed else 0)
+            else:
+                ed = pick_edit(rng, copy_tree, dst, dict(world["trees"], **{dst: copy_tree}))
             if ed is None:
-                break
+                continue
             kind, path, args, apply_ = ed
             edited = _copy.deepcopy(copy_tree)
             apply_(edited)
@@ -999,6 +1078,8 @@ def profile(i, rng, ver):
         o = {"big": True}
     elif k == 6:
         o = {"mll": ver}
+    elif k == 7:
+        o = {"widelinks": True}
     return o
 
 
